@@ -1022,6 +1022,8 @@ CORPUS = [
                'seq': ['dry_bulb_temperature', 'is_leap_year']}),
     ('reads', {'class': 'EPW', 'spec': {'file': 'los_angeles_no_leap_field.epw'},
                'seq': ['location', 'wind_speed', 'header']}),
+    ('reads', {'class': 'EPW', 'spec': {'file': 'los_angeles_no_leap_field.epw'},
+               'seq': ['dry_bulb_temperature', 'sky_temperature']}),
     ('reads', {'class': 'EPW', 'spec': {'file': 'chicago.epw'},
                'seq': ['wind_speed', 'header', 'location', 'is_leap_year', 'wind_speed']}),
     ('setters', {'class': 'WindRose', 'spec': {'ap': AP_YEAR, 'seed': 615, 'count': 8, 'calm': 0.1},
@@ -1086,10 +1088,37 @@ def _gen_setters(ctx, cname, k):
         yield 'setters', {'class': cname, 'spec': spec, 'ops': ops, 'check': sorted(chk)}
 
 
+def _gen_pairs(ctx, cname, limit):
+    """the minimal stale-cache history for every (attribute, setter) pair: read X, call the setter,
+    compare X with a fresh object (all pairs when searching / thorough, a sample in the quick tier)"""
+    rng = ctx.rng
+    S = SPECS[cname]
+    spec = S.gen(rng)
+    names = all_reads(S, spec)
+    pairs = [(x, sn) for x in names for sn in sorted(S.setters)]
+    if limit and len(pairs) > limit:
+        pairs = rng.sample(pairs, limit)
+    for x, sn in pairs:
+        vals = []
+        for _ in range(8):              # two different arguments, so that one of them changes the setting
+            v = S.setters[sn](rng)
+            if v not in vals:
+                vals.append(v)
+            if len(vals) == 2:
+                break
+        for v in vals:
+            ctx.count('pairs:%s' % cname)
+            yield 'setters', {'class': cname, 'spec': spec, 'ops': [['read', x], ['set', sn, v]], 'check': [x]}
+
+
 def _oracle_cases(ctx):
     rng = ctx.rng
     for c in CORPUS:
         yield c
+    full = (not ctx.quick) or ctx.searching
+    for cname in ('WindRose', 'MonthlyChart', 'Compass', 'WindProfile'):
+        for c in _gen_pairs(ctx, cname, None if full else 40):
+            yield c
     big = (not ctx.quick) or ctx.searching
     m = 6 if big else 1
     plan = [('ViewSphere', 2), ('SQLiteResult', 6), ('EPW', 1), ('AnalysisPeriod', 12),
